@@ -8,6 +8,7 @@
 #include <unistd.h>
 #include <string>
 #include <map>
+#include <set>
 #include <vector>
 
 #include "nv_api.h"
@@ -466,6 +467,7 @@ static void c07scan_child(const NvCpu *cpu, int lo, int hi, int step, int tails,
   mem.endian = cpu->endian;
   std::string out;
   long evals = 0, unknown = 0, accepted = 0, closed = 0, stripped_ok = 0;
+  std::set<std::string> closed_mn;
   char d[64];
   for (int p = lo; p <= hi; p += step)
   {
@@ -502,7 +504,12 @@ static void c07scan_child(const NvCpu *cpu, int lo, int hi, int step, int tails,
       std::string t2;
       int n2 = nv_disasm(cpu, &mem, addr, t2);
       std::string t2c = (std::string(mode) == "stripped") ? strip_annotation(t2) : t2;
-      if (t2c == used) { closed++; }
+      if (t2c == used)
+      {
+        closed++;
+        size_t sp = used.find_first_of(" \t");
+        closed_mn.insert(used.substr(0, sp == std::string::npos ? used.size() : sp));
+      }
       else
       {
         out += std::string("c07_mismatch\t") + itos(p) + "\t" + itos(tail) + "\t" + mode + "\t" + used + "\t" + t2c + "\n";
@@ -548,6 +555,9 @@ static void c07scan_child(const NvCpu *cpu, int lo, int hi, int step, int tails,
     }
   }
   char e[200];
+  out += "#closed";
+  for (std::set<std::string>::iterator it = closed_mn.begin(); it != closed_mn.end(); ++it) { out += "\t" + *it; }
+  out += "\n";
   snprintf(e, sizeof(e), "#stats\t%ld\t%ld\t%ld\t%ld\t%ld\n#done\n", evals, unknown, accepted, closed, stripped_ok);
   out += e;
   if (write(fd, out.data(), out.size()) < 0) { _exit(3); }
@@ -565,6 +575,7 @@ static void do_c07scan(const Frame &q, Frame &a)
   int stails = atoi(get(q, "stails", "0").c_str());
   uint32_t addr = strtoul(get(q, "addr", "256").c_str(), NULL, 0);
   std::string anomalies;
+  std::set<std::string> closed_all;
   long st[5] = { 0, 0, 0, 0, 0 };
   int cur = lo;
   int forks = 0;
@@ -604,6 +615,18 @@ static void do_c07scan(const Frame &q, Frame &a)
       if (line.empty()) { continue; }
       if (line[0] == '@') { last = atoi(line.c_str() + 1); continue; }
       if (line == "#done") { done = true; continue; }
+      if (line.compare(0, 7, "#closed") == 0)
+      {
+        size_t q0 = 7;
+        while (q0 < line.size())
+        {
+          size_t q1 = line.find('\t', q0 + 1);
+          if (q1 == std::string::npos) { q1 = line.size(); }
+          if (q1 > q0 + 1) { closed_all.insert(line.substr(q0 + 1, q1 - q0 - 1)); }
+          q0 = q1;
+        }
+        continue;
+      }
       if (line.compare(0, 6, "#stats") == 0)
       {
         long v[5];
@@ -628,6 +651,9 @@ static void do_c07scan(const Frame &q, Frame &a)
   a["accepted"] = itos(st[2]);
   a["closed"] = itos(st[3]);
   a["stripped"] = itos(st[4]);
+  std::string cm;
+  for (std::set<std::string>::iterator it = closed_all.begin(); it != closed_all.end(); ++it) { cm += *it + "\n"; }
+  a["closed_mnemonics"] = cm;
 }
 
 // ------------------------------------------------------------- range (forked)
